@@ -525,6 +525,7 @@ func init() {
 				{Name: "kick", Desc: "removed by the room, rejoin (no / same / new nickname option), then leave (answered, unanswered+cancelled) or removed again followed by a late presence", Body: kickBody, MaxDev: 0, ShardLevels: 2, Budget: b, Env: env},
 				{Name: "leave-twice", Desc: "a refused or abandoned Leave followed by a Leave that the room grants", Body: leaveTwiceBody, MaxDev: 0, ShardLevels: 2, Budget: b, Env: env},
 				{Name: "failed-rejoin", Desc: "a successful join, a second join of the same channel that the room refuses or the application gives up, then a Leave that the room grants", Body: failedRejoinBody, MaxDev: 0, ShardLevels: 2, Budget: b, Env: env},
+				{Name: "join-error-from", Desc: "the join refused by an error presence whose from is an equivalent spelling of the requested occupant address, or the room itself", Body: joinErrorBody, MaxDev: 1, CutDepth: 1, Workers: 4, Budget: b, Env: env},
 				{Name: "invitations", Desc: "two or three mediated invitations from one or two rooms with equal, absent or different message ids", Body: invitesBody, MaxDev: 0, CutDepth: 2, Workers: 4, Budget: b, Env: env},
 				{Name: "two-sessions", Desc: "one Client on two sessions: a second Join of the same room names the other session", Body: twoSessionsBody, MaxDev: 0, CutDepth: 1, Workers: 2, Budget: b, Env: env},
 				{Name: "overlapping-joins", Desc: "an unanswered join, a second join of the same room through the same client while it waits, the first given up at any instant", Body: overlapBody, MaxDev: pre - 1, ShardLevels: 2, Budget: b, Env: env},
